@@ -218,6 +218,12 @@ LEAD = ['(', '[', "['", 'key=', '=', '"', "'", '("', 'name=\'', '<', ':',
         '@', 'file://', '-I', '{"p":"']
 
 
+WS_KINDS = [('blank', ' '), ('tab', '\t'), ('newline', '\n'), ('cr', '\r'),
+            ('crlf', '\r\n'), ('blanks', '   '), ('newline-indent', '\n    '),
+            ('blank-newline', ' \n'), ('vtab', '\x0b'), ('formfeed', '\x0c'),
+            ('nbsp', '\xa0'), ('linesep', '\u2028')]
+
+
 def gen_base(rng, lay, mapper_real):
     """one path-like base word"""
     k = rng.randrange(20)
@@ -386,7 +392,7 @@ def call_impl(value):
 
 def word_guarantee(msg, out, mapper):
     """the word-level guarantee on the real output, independently:
-    returns (applicable, problem or None).
+    returns (applicable, kind of problem or None, problem or None).
     hypothesis: no exposed word occurs inside another word of the message
     conclusion (words_clean): no word of the output whose quote-stripped
     form starts with '/' is exposed;
@@ -401,26 +407,28 @@ def word_guarantee(msg, out, mapper):
     for k in keys:
         for w in words:
             if w != k and k in w:
-                return False, None
+                return False, None, None
     for w in out.split():
         s = strip_quotes(w)
         if s.startswith('/') and exposed(w):
-            return True, ('output word %r is an exposed absolute path' % w)
+            return True, 'exposed-word-remains', (
+                'output word %r is an exposed absolute path' % w)
     try:
         safe = {k: safe_name(k, mapper) for k in keys}
     except RelativeToError:
-        return True, None
+        return True, None, None
     for k in keys:
         for v in safe.values():
             if k in v:
-                return True, None
+                return True, None, None
     want = [safe.get(w, w) for w in words]
     want = [w for w in want if w != '']
     if out.split() != want:
-        return True, ('output words %r are not the input words with the '
-                      'exposed ones replaced by name (%r)'
-                      % (out.split()[:8], want[:8]))
-    return True, None
+        return True, 'word-spec', (
+            'output words %r are not the input words with the '
+            'exposed ones replaced by name (%r)'
+            % (out.split()[:8], want[:8]))
+    return True, None, None
 
 
 def check_unit(ctx, value, mapper, label, lay_root='', fake_pkg=None):
@@ -463,15 +471,18 @@ def check_unit(ctx, value, mapper, label, lay_root='', fake_pkg=None):
             return
         n_app = 0
         for s, o in zip(strings, outs):
-            app, prob = word_guarantee(s, o, mapper)
+            app, kind, prob = word_guarantee(s, o, mapper)
             n_app += app
             if prob:
                 failed = True
                 detail['message'] = s
                 detail['sanitized'] = o
-                ctx.violation('C20/unit/word-guarantee',
-                              'sanitize_paths(%r) -> %r: %s' % (s, o, prob),
-                              detail)
+                # a path left verbatim and a wrong replacement are different
+                # failures: own signatures (with the whitespace class for the
+                # dedicated separator cases)
+                ctx.violation('C20/unit/%s%s' % (
+                    kind, '/' + label if label.startswith('ws-') else ''),
+                    'sanitize_paths(%r) -> %r: %s' % (s, o, prob), detail)
                 break
         ctx.count('unit_guarantee_applicable:%s' % bool(n_app))
     # (ii) correspondence
@@ -557,6 +568,17 @@ def run_unit(ctx, n_layouts, n_per_layout):
                     v = gen_message(rng, lay, mapper_real)
                     label = 'str'
                 check_unit(ctx, v, mapper, label, lay.root, fake_pkg)
+            # every kind of separator around an exposed path, in the shape
+            # of the package's own multi-line messages ("The file\n{path}\n
+            # contains ...")
+            some = lay.files + lay.dirs
+            for name, sep in WS_KINDS:
+                pth = rng.choice(some)
+                for msg in ('The file' + sep + pth + sep + 'contains x',
+                            pth + sep + 'is not a file',
+                            'copied to' + sep + "'" + pth + "'"):
+                    check_unit(ctx, msg, mapper, 'ws-' + name, lay.root,
+                               fake_pkg)
             for i in range(n_per_layout // 10):
                 check_parse(ctx, strip_quotes(gen_word(rng, lay, mapper_real)))
 
@@ -646,10 +668,13 @@ FAILURES = ['success', 'missing_query', 'missing_stats', 'missing_markers',
             'bad_taxonomy', 'no_marker_overlap', 'unknown_reference_marker',
             'negative_raw', 'duplicate_cells', 'duplicate_genes',
             'corrupt_query', 'corrupt_stats', 'corrupt_markers',
-            'query_is_dir', 'csc_query', 'worker_raise', 'worker_exit']
+            'query_is_dir', 'csc_query', 'worker_raise', 'worker_exit',
+            # reach the package's multi-line messages that carry a path
+            # between newlines (score_utils.read_precomputed_stats)
+            'stats_no_sum', 'stats_no_n_cells']
 
 
-def build_case(rng, wd, failure, awkward=True):
+def build_case(rng, wd, failure, awkward=True, use_tmp=None):
     """lay out inputs for one run; returns (config, description)"""
     import numpy as np
     import h5py
@@ -727,6 +752,9 @@ def build_case(rng, wd, failure, awkward=True):
         b = stats.read_bytes()
         stats.write_bytes(b[:len(b) // 2] if rng.random() < 0.5
                           else b'junk' * 100)
+    if failure in ('stats_no_sum', 'stats_no_n_cells'):
+        with h5py.File(stats, 'a') as f:
+            del f['sum' if failure == 'stats_no_sum' else 'n_cells']
     if failure == 'corrupt_markers':
         markers.write_text('{"None": ["g1", ')
     if failure == 'query_is_dir':
@@ -734,7 +762,8 @@ def build_case(rng, wd, failure, awkward=True):
         query.mkdir()
     cfg = pipeline.mapping_config(
         query, stats, markers, d_out,
-        d_tmp if rng.random() < 0.8 else None,
+        d_tmp if (rng.random() < 0.8 if use_tmp is None else use_tmp)
+        else None,
         n_processors=rng.choice([1, 2]), chunk_size=rng.choice([3, 10]),
         bootstrap_iteration=rng.choice([1, 5]), cloud_safe=True,
         csv=rng.random() < 0.7)
@@ -878,9 +907,9 @@ def run_mapping_cfg(config):
 
 
 def check_run(ctx, rng, failure, awkward=True, cloud_safe=None,
-              combo='both'):
+              combo='both', use_tmp=None):
     with pipeline.workdir('ctmverif_c20p_') as wd:
-        cfg, desc = build_case(rng, wd, failure, awkward)
+        cfg, desc = build_case(rng, wd, failure, awkward, use_tmp)
         apply_combo(cfg, combo)
         roots = sensitive_roots(wd)
         if cloud_safe is not None:
@@ -925,7 +954,7 @@ def check_run(ctx, rng, failure, awkward=True, cloud_safe=None,
                 'cloud_safe run (%s, %s, outputs: %s) reveals %r in %s: %r'
                 % (failure, status, combo, leak, where, s[:300]),
                 {'kind': 'run', 'failure': failure, 'awkward': awkward,
-                 'combo': combo,
+                 'combo': combo, 'use_tmp': use_tmp,
                  'config': cfg, 'where': where, 'leak': leak,
                  'string': s, 'error': err,
                  'all': [(w, l) for w, l, _ in found[:10]],
@@ -1002,13 +1031,21 @@ def run(ctx):
                 ('unknown_reference_marker', True, 'json-only-nolog'),
                 ('success', True, 'hdf5-only'),
                 ('bad_taxonomy', True, 'json-only')]
+        extra = [('stats_no_sum', True, 'both', False),
+                 ('stats_no_n_cells', True, 'both', True),
+                 ('stats_no_sum', False, 'hdf5-only', True)]
     else:
         run_unit(ctx, n_layouts=60, n_per_layout=400)
         runs = [(f, True, c) for f in FAILURES for c in COMBOS] + \
                [(f, False, rng.choice(COMBOS)) for f in FAILURES
                 for _ in range(2)]
+        extra = [(f, a, c, t) for f in ('stats_no_sum', 'stats_no_n_cells')
+                 for a in (True, False) for c in ('both', 'hdf5-only')
+                 for t in (True, False)]
     for failure, awkward, combo in runs:
         check_run(ctx, rng, failure, awkward, combo=combo)
+    for failure, awkward, combo, use_tmp in extra:
+        check_run(ctx, rng, failure, awkward, combo=combo, use_tmp=use_tmp)
     # the scanner is not blind: the same kind of run without cloud_safe
     # must show paths
     _, found = check_run(ctx, rng, 'success', True, cloud_safe=False)
@@ -1035,7 +1072,8 @@ def replay(ctx, data, from_corpus=False):
         # the same pools); a few attempts
         for i in range(int(d.get('attempts', 6))):
             _, found = check_run(ctx, r, d['failure'], d.get('awkward', True),
-                                 combo=d.get('combo', 'both'))
+                                 combo=d.get('combo', 'both'),
+                                 use_tmp=d.get('use_tmp'))
             if found:
                 break
     elif not from_corpus:
